@@ -473,6 +473,21 @@ def set_body(ctx):
         r = look(lf.ret())
         ok = is_call(r, "len") and look(r[2][0])[0] == "field" and look(r[2][0])[3] == "body"
         ctx.ob("R05.3", "Body::len|is-vec-len", ok, "Body::len is Vec::len of the stored bytes: %s" % term_s(lf.ret()), fl.loc(0))
+    # the setters store what they are given (a "normalising" setter would decouple the header from the body)
+    fs, ls = leaves_of(ctx, "response::ResponseHeaders::set_content_length")
+    for lf in ls:
+        if lf.kind != "return":
+            continue
+        asg = [e for e in lf.events if e[0] == "assign" and e[3] == "(*_1).content_length"]
+        ok = len(asg) == 1 and look(asg[0][4]) == ("arg", 2) and not [e for e in lf.events if e[0] == "call"]
+        ctx.ob("R05.3", "setter|ResponseHeaders::set_content_length", ok, "ResponseHeaders::set_content_length stores its argument unchanged, on every path (stored: %s)" % ([term_s(e[4])[:80] for e in asg] or "nothing"), fs.loc(lf.bb))
+    fp, lp = leaves_of(ctx, "response::Response::set_content_length")
+    for lf in lp:
+        if lf.kind != "return":
+            continue
+        ev = [e for e in lf.events if e[0] == "call" and e[3] == "response::ResponseHeaders::set_content_length"]
+        ok = len(ev) == 1 and self_field(ev[0][4][2][0], "headers") and look(ev[0][4][2][1]) == ("arg", 2)
+        ctx.ob("R05.3", "setter|Response::set_content_length", ok, "Response::set_content_length forwards its argument unchanged to the headers", fp.loc(lf.bb))
     # writers
     allowed_len = {"response::ResponseHeaders::set_content_length", "<response::ResponseHeaders as std::default::Default>::default", "response::Response::new"}
     for w in field_writers(facts, RH, "content_length"):
